@@ -411,6 +411,65 @@ func (c *Ctx) checkClosedFormEigens() {
 		v0 := len(vals) == 4 && ratExpr(info, vals[0]) != nil && ratExpr(info, vals[0]).Sign() == 0
 		L.Check(uni && ones && v0, "eigen-literal", label, "eigenvalue 0 with stationary left vector and unit right vector", c.P.Pos(fd.Pos()),
 			"val[0] = 0, L[0] = (1/4,1/4,1/4,1/4), R[·][0] = 1", fmt.Sprintf("stationary eigen-pair broken (val[0]=0: %v, uniform left vector: %v, unit right vector: %v)", v0, uni, ones))
+		if mname == "K2PModel" && len(vals) == 4 {
+			// R·diag(λ)·L with λ read as rational functions of kappa equals the K80 generator at
+			// rate 1: transversions 1/(κ+2), transitions (A<->G, C<->T) κ/(κ+2), diagonal -1
+			var lam []frac
+			okLam := true
+			for _, e := range vals {
+				f, ok := fracOf(info, e)
+				if !ok {
+					okLam = false
+				}
+				lam = append(lam, f)
+			}
+			if !okLam {
+				L.Unknown("eigen-literal", label, "R·diag(λ)·L = Q(K80)", c.P.Pos(fd.Pos()), "an eigenvalue is not a rational expression of the model parameter")
+			} else {
+				kappa := ""
+				for _, f := range lam {
+					for _, q := range []poly{f.num, f.den} {
+						for mono := range q {
+							for _, v := range strings.Split(mono, "*") {
+								if v != "" {
+									kappa = v
+								}
+							}
+						}
+					}
+				}
+				okQ, why := kappa != "", "no model parameter in the eigenvalues"
+				if okQ {
+					k := polyVar(kappa)
+					den := k.add(polyConst(big.NewRat(2, 1)), 1)
+					for i := 0; i < 4 && okQ; i++ {
+						for j := 0; j < 4 && okQ; j++ {
+							sum := frac{poly{}, polyConst(big.NewRat(1, 1))}
+							for t := 0; t < 4; t++ {
+								coef := new(big.Rat).Mul(Rm[i][t], Lm[t][j])
+								term := frac{lam[t].num.mul(polyConst(coef)), lam[t].den}
+								sum = sum.add(term)
+							}
+							var want poly
+							switch {
+							case i == j:
+								want = poly{}.add(den, -1)
+							case (i+j)%2 == 0: // A<->G (0,2), C<->T (1,3)
+								want = k
+							default:
+								want = polyConst(big.NewRat(1, 1))
+							}
+							// sum.num/sum.den == want/den  <=>  sum.num·den - want·sum.den == 0
+							if d := sum.num.mul(den).add(want.mul(sum.den), -1); !d.isZero() {
+								okQ, why = false, fmt.Sprintf("entry (%d,%d): (κ+2)·num - expected·den = %s", i, j, d.String())
+							}
+						}
+					}
+				}
+				L.Check(okQ, "eigen-literal", label, "R·diag(λ)·L = Q(K80)", c.P.Pos(fd.Pos()), "16 entries compared as rational functions of kappa: transversion 1/(κ+2), transition κ/(κ+2), diagonal -1",
+					"the eigen system does not reproduce the Kimura generator (eigenvalues and eigenvector columns do not correspond, or a value is wrong): "+why)
+			}
+		}
 		if mname == "JCModel" && len(vals) == 4 {
 			var lam []*big.Rat
 			allK := true
@@ -479,7 +538,7 @@ func (c *Ctx) checkClosedFormEigens() {
 		L.Check(ok, "eigen-literal", label, "eigenvalue 0 with stationary left vector and unit right vector", c.P.Pos(fd.Pos()),
 			"val[0] = 0, L[0] = (πA,πC,πG,πT), R[·][0] = 1", "the stationary eigen-pair of F84 is broken: P(t) would not converge to the base frequencies / rows would not sum to 1")
 	}
-	L.Floor("eigen-literal", 3, "JC 3, K2P 2, F84 1 (floor = half of the instances on the pinned tree: a clean-up may merge instances, a rule that sees nothing must still fail)")
+	L.Floor("eigen-literal", 3, "JC 3, K2P 3, F84 1 (floor = half of the instances on the pinned tree: a clean-up may merge instances, a rule that sees nothing must still fail)")
 }
 
 // ---------------------------------------------------------------------------
@@ -557,6 +616,69 @@ func (p poly) String() string {
 		s = append(s, p[k].RatString()+"·"+k)
 	}
 	return strings.Join(s, " + ")
+}
+
+// frac: a rational function num/den over the same symbols as poly.
+type frac struct{ num, den poly }
+
+func (a frac) add(b frac) frac {
+	return frac{a.num.mul(b.den).add(b.num.mul(a.den), 1), a.den.mul(b.den)}
+}
+
+// fracOf parses an arithmetic expression with division over constants, identifiers and selectors;
+// single-assignment locals (ratLocals) are replaced by their defining expression and a receiver
+// field m.f is the symbol f.
+func fracOf(info *types.Info, e ast.Expr) (frac, bool) {
+	one := polyConst(big.NewRat(1, 1))
+	if r := ratExpr(info, e); r != nil {
+		return frac{polyConst(r), one}, true
+	}
+	switch x := e.(type) {
+	case *ast.ParenExpr:
+		return fracOf(info, x.X)
+	case *ast.Ident:
+		if ratLocals != nil {
+			if def, ok := ratLocals[info.Uses[x]]; ok && def != nil && ratDepth < 8 {
+				ratDepth++
+				defer func() { ratDepth-- }()
+				return fracOf(info, def)
+			}
+		}
+		return frac{polyVar(x.Name), one}, true
+	case *ast.SelectorExpr:
+		return frac{polyVar(x.Sel.Name), one}, true
+	case *ast.UnaryExpr:
+		f, ok := fracOf(info, x.X)
+		if !ok {
+			return frac{}, false
+		}
+		switch x.Op {
+		case token.SUB:
+			return frac{poly{}.add(f.num, -1), f.den}, true
+		case token.ADD:
+			return f, true
+		}
+	case *ast.BinaryExpr:
+		a, ok1 := fracOf(info, x.X)
+		b, ok2 := fracOf(info, x.Y)
+		if !ok1 || !ok2 {
+			return frac{}, false
+		}
+		switch x.Op {
+		case token.ADD:
+			return a.add(b), true
+		case token.SUB:
+			return a.add(frac{poly{}.add(b.num, -1), b.den}), true
+		case token.MUL:
+			return frac{a.num.mul(b.num), a.den.mul(b.den)}, true
+		case token.QUO:
+			if b.num.isZero() {
+				return frac{}, false
+			}
+			return frac{a.num.mul(b.den), a.den.mul(b.num)}, true
+		}
+	}
+	return frac{}, false
 }
 
 // polyOf parses an arithmetic expression over identifiers; calls X.At(i,j)
